@@ -25,6 +25,7 @@ import FxVerif.Gen.C08d
 import FxVerif.Model.C08DepI
 import FxVerif.Proofs.C08Dep
 import FxVerif.Proofs.C08DepX
+import FxVerif.Proofs.C08ExtMix
 /-!
 # C08 — coin ↔ ERC-20 conversion conserves value and keeps the token-pair books balanced
 
@@ -1528,5 +1529,58 @@ example :
   decide
 
 end StateDBSource
+
+/-! ### mixed transactions on an EXTERNALLY-owned token: the escrow book at slot level (round 5) -/
+
+section ExternalMixed
+open FxVerif.Model.C08Cache FxVerif.Proofs.C08Cache
+
+/-- **I_external through mixed transactions (partial: coherence)**.  For EVERY transaction a contract builds from the kind-1
+words — direct `transfer` / `balanceOf` / `approve` / `transferFrom` on an externally-owned token mixed with the precompile
+conversions `bridgeCall` (keeper-level `transfer(caller → module)`, coins minted), `crossChain` (`transferFrom` through the
+running EVM, coins minted by the native action) and `cancelSendToExternal` (keeper-level `transfer(module → caller)`, coins
+burnt), any amounts, any initial storage — IF the transaction is coherent (no keeper-level call touches a slot the running
+StateDB has cached), THEN "ERC-20 escrowed by the module − coin supply over all denominations" is the same after the
+transaction as before it, whether it succeeds or reverts.  The hypothesis is what the known nested-EVM finding violates. -/
+theorem mixed_tx_external_book_partial (ws : List EW) (st : Store) (esc : Nat)
+    (hc : CoherentTx (ws.flatMap EW.steps) ⟨{ store := st }, esc⟩) :
+    extBook ((txResult (ws.flatMap EW.steps) st esc).2.1, (txResult (ws.flatMap EW.steps) st esc).2.2) = extBook (st, esc) := by
+  rw [mixed_tx_coherent _ st esc hc]
+  unfold seqResult
+  cases h : runSeq (ws.flatMap EW.steps) (st, esc) with
+  | none => rfl
+  | some s' => obtain ⟨st', esc'⟩ := s'; exact words_keep_extBook ws (st, esc) (st', esc') h
+
+/-- without a keeper-level conversion no hypothesis is needed: `crossChain` converts through the running EVM and mints the
+coins in its native action -/
+theorem mixed_tx_external_book_running_evm (ws : List EW) (hw : ∀ w ∈ ws, ∀ n, w ≠ .b n ∧ w ≠ .c n) (st : Store) (esc : Nat) :
+    extBook ((txResult (ws.flatMap EW.steps) st esc).2.1, (txResult (ws.flatMap EW.steps) st esc).2.2) = extBook (st, esc) := by
+  apply mixed_tx_external_book_partial
+  apply coherent_of_evm_or_native
+  intro s hs
+  obtain ⟨w, hwm, hsw⟩ := List.mem_flatMap.mp hs
+  cases w with
+  | t n => simp [EW.steps] at hsw; exact Or.inl ⟨_, _, hsw⟩
+  | rm => simp [EW.steps] at hsw; exact Or.inl ⟨_, _, hsw⟩
+  | rs => simp [EW.steps] at hsw; exact Or.inl ⟨_, _, hsw⟩
+  | a n => simp [EW.steps] at hsw; exact Or.inl ⟨_, _, hsw⟩
+  | f n => simp [EW.steps] at hsw; exact Or.inl ⟨_, _, hsw⟩
+  | b n => exact absurd rfl (hw _ hwm n).1
+  | x n =>
+    simp [EW.steps] at hsw
+    rcases hsw with hsw | hsw
+    · exact Or.inl ⟨_, _, hsw⟩
+    · exact Or.inr ⟨_, _, hsw⟩
+  | c n => exact absurd rfl (hw _ hwm n).2
+
+/-- non-vacuity (`rs b50`, the control of the harness: coherent) and the witness that the hypothesis is needed (`t10 b50`
+from the state the harness observed: 50 tokens created, the book itself unchanged — the damage is in I_sum) -/
+example :
+    CoherentTx ([EW.rs, .b 50].flatMap EW.steps) ⟨{ store := store0X 200 0 0 350 0 150 100 }, 0⟩ ∧
+    (let r := txResult ([EW.t 10, .b 50].flatMap EW.steps) (store0X 150 0 50 350 0 150 100) 50
+     r.1 = true ∧ r.2.1 (.bal 0) = 140 ∧ r.2.1 (.bal 1) = 10 ∧ r.2.1 (.bal 2) = 100 ∧ r.2.2 = 100) := by
+  refine ⟨by rw [← coherentTxB_iff]; decide, by decide⟩
+
+end ExternalMixed
 
 end FxVerif.Props.C08
